@@ -6,7 +6,9 @@ wt="/tmp/seedconfirm/$pid-$v"
 rm -rf "$wt"; mkdir -p /tmp/seedconfirm
 git -C /repo worktree add -q --detach "$wt" HEAD || exit 2
 cp /repo/kopf/_cogs/helpers/versions.py "$wt/kopf/_cogs/helpers/versions.py"
-demo="$(ls "$src"/demo_*.py | head -1)"
+demo0="$(ls "$src"/demo_*.py | head -1)"
+demo="/tmp/seedconfirm/$(basename "$demo0" .py)_$pid.py"      # demos may assert the path of the agent's own worktree
+sed "s#/tmp/seed2/$pid/wt#$wt#g" "$demo0" > "$demo"
 run_demo() { (cd "$wt" && PYTHONPATH="$wt" timeout 900 /venv/bin/python "$demo" >"$1" 2>&1; echo $?); }
 (cd "$wt" && git apply "$src/patch.diff") || { echo "patch does not apply"; git -C /repo worktree remove --force "$wt"; exit 2; }
 rc_with=$(run_demo "$src/confirm_demo_with.log")
@@ -15,6 +17,6 @@ reg=$(grep -o 'REGRESSIONS: [0-9]*' "$src/confirm_suite.log" | tail -1)
 (cd "$wt" && git apply -R "$src/patch.diff")
 rc_without=$(run_demo "$src/confirm_demo_without.log")
 printf '{"property": "%s", "variant": "%s", "demo": "%s", "demo_rc_with_patch": %s, "demo_rc_without_patch": %s, "suite": "%s", "base": "HEAD of /repo (hooks and fixes included)"}\n' \
-  "$pid" "$v" "$(basename "$demo")" "$rc_with" "$rc_without" "$reg" > "$src/confirm.json"
+  "$pid" "$v" "$(basename "$demo0")" "$rc_with" "$rc_without" "$reg" > "$src/confirm.json"
 cat "$src/confirm.json"
-git -C /repo worktree remove --force "$wt"
+git -C /repo worktree remove --force "$wt"; rm -f "$demo"
